@@ -34,14 +34,15 @@ Print Assumptions C10_if_then_else.
 Theorem C10_expression : forall e c f, holds_all e (enc_raw c (CExpr f)) = feval e f.
 Proof. exact C10_expr_sem. Qed.
 Print Assumptions C10_expression.
-(* an optional constraint binds exactly when applied; a mandatory one always *)
+(* an optional constraint binds exactly when applied; a mandatory one always (every constraint class, the indicator
+   constraints included since the repair of F33) *)
 Theorem C10_optional : forall e c x,
   holds_all e (enc_cons c true x) =
-  implb (bv e (BApplied c)) (holds_all e (enc_raw c x)) && holds_all e (enc_direct x).
+  implb (bv e (BApplied c)) (holds_all e (enc_raw c x)).
 Proof. exact C10_optional_sem. Qed.
 Print Assumptions C10_optional.
 Theorem C10_mandatory : forall e c x,
-  holds_all e (enc_cons c false x) = holds_all e (enc_raw c x) && holds_all e (enc_direct x).
+  holds_all e (enc_cons c false x) = holds_all e (enc_raw c x).
 Proof. exact C10_mandatory_sem. Qed.
 Print Assumptions C10_mandatory.
 Theorem C10_force_apply_n : forall e c cs n k,
